@@ -1,5 +1,6 @@
 use super::*;
 use std::fs;
+use std::path::PathBuf;
 
 #[derive(Debug, Default)]
 pub(crate) struct FilesWithBackupEmitter;
@@ -19,7 +20,11 @@ impl Emitter for FilesWithBackupEmitter {
             // Do a little dance to make writing safer - write to a temp file
             // rename the original to a .bk, then rename the temp file to the
             // original.
-            let tmp_name = filename.with_extension("tmp");
+            // Append to the file name instead of replacing its extension, so that
+            // the temporary file can never be the source file itself (`foo.tmp`).
+            let mut tmp_name = filename.as_os_str().to_owned();
+            tmp_name.push(".tmp");
+            let tmp_name = PathBuf::from(tmp_name);
             let bk_name = filename.with_extension("bk");
 
             fs::write(&tmp_name, formatted_text)?;
